@@ -142,6 +142,8 @@ def main(argv=None):
     reasons = []
     for i, rc, tail in dead:
         reasons.append(f"shard {i} ended with {rc}")
+    if counters.get("shard_stopped_by_exception_in_repo", 0) and not new_mechs:
+        reasons.append("a shard was stopped by an exception raised in the code under test")
     if counters.get("shard_aborted", 0):
         reasons.append(f"{counters['shard_aborted']} shard(s) aborted after repeated case timeouts")
     required = list(getattr(mod, "REQUIRED", []))
